@@ -703,6 +703,7 @@ class Item:
         self.forloops = []  # (anchor, k, invariant text)
         self.rename = None
         self.tail = False
+        self.mutself = False
         self.entry = ""
         self.novis = False
         self.tailproof = ""
@@ -819,6 +820,8 @@ def parse_template(text):
             cur.twin = False
         elif d == "novis":
             cur.novis = True
+        elif d == "mutself":
+            cur.mutself = True
         else:
             raise ExtractError(f"template line {i+1}: unknown sub-directive //%{d}")
         i += 1
@@ -982,6 +985,16 @@ def extract_item(item, meta, mutant=None, twin=False):
                 ed.replace(toks[te - 1].end, toks[te - 1].end, ")", "R-ann(ret)")
             if item.contract is not None:
                 ed.replace(toks[bi].start, toks[bi].start, "\n" + item.contract.rstrip() + "\n", "R-ann(contract)")
+        if item.mutself:
+            # R-mutself: `fn f(mut self, ..) { B }`  ->  `fn f(self, ..) { let mut vp_self = self; B[self := vp_self] }`
+            if not (toks[j + 1].text == "mut" and toks[j + 2].text == "self"):
+                raise ExtractError(f"{item.name}: //%mutself but the receiver is not `mut self`")
+            ed.replace(toks[j + 1].start, toks[j + 2].start, "", "R-mutself")
+            for tt in toks[bi + 1:ei]:
+                if tt.kind == "ident" and tt.text == "self":
+                    ed.replace(tt.start, tt.end, "vp_self", "R-mutself")
+            ed.replace(toks[bi].end, toks[bi].end, " let mut vp_self = self; ", "R-mutself")
+            fired.add("R-mutself")
         if twin and item.twin:
             ed.replace(toks[bi].end, toks[bi].end, " assert(false); /*TWIN*/ ", "TWIN")
         if item.entry:
